@@ -15,14 +15,16 @@ EXTENDS Naturals, Sequences, FiniteSets
 Shapes == {"direct", "tsr", "redirect", "noroute", "nomethod", "options", "lookup", "lookupclone", "clonewith", "clone",
            "tsrclone", "hostdirect", "hosttsr", "statichost", "hijack", "txnlookup",
            "staticdirect", "statictsr", "tsrclonewith", "tsrlookup", "wrapclone", "directcopy", "noroutecopy",
-           "swapped", "wrapf", "noquery", "hostnomethod"}
+           "swapped", "wrapf", "noquery", "hostnomethod", "infix"}
+\* infix: a route with an infix catch-all whose suffix matches at the first candidate segment (/fx/*{x}/dl asked with
+\* /fx/T/dl): the lookup below the catch-all runs on a second recycled context, whose parameters must not be added
 \* noquery: a request without a query string whose handler writes into the values QueryParams returned; hostnomethod: a
 \* 405 whose Allow header is computed by walking hostname routes with competing static and parameter labels
 \* hijack: the handler takes over the connection (the next user of the context must find a working writer);
 \* txnlookup: the handler routes its request by hand through a read-only transaction (View + Txn.Lookup)
 RouteShapes == {"direct", "tsr", "lookup", "lookupclone", "clonewith", "clone", "tsrclone", "hostdirect", "hosttsr", "statichost",
                 "hijack", "txnlookup", "staticdirect", "statictsr", "tsrclonewith", "tsrlookup", "wrapclone", "directcopy",
-                "swapped", "wrapf", "noquery"}
+                "swapped", "wrapf", "noquery", "infix"}
 \* swapped: the handler observes, then replaces the context's request (SetRequest, a foreign request whose query it
 \* then reads) and writer (SetWriter) - whoever gets this context next must see nothing of either; wrapf: the handler is
 \* an http.HandlerFunc behind WrapF: it gets the current request's parameters, as a copy of its own that stays as it is
